@@ -75,6 +75,8 @@ impl StackS {
     // stack.rs truncate (Kani unit `stack`): keeps the first `len` slots
     #[verifier::external_body]
     fn truncate(&mut self, len: usize) requires len <= old(self).view.len() ensures final(self).view == old(self).view.take(len as int) { unimplemented!() }
+    #[verifier::external_body]
+    fn clear(&mut self) ensures final(self).view.len() == 0 { unimplemented!() }
 }
 
 //@struct file=yarel/src/object.rs name=CallFrame map "*const u8" => "usize"
@@ -234,13 +236,14 @@ impl Vm {
     // result, the caller's frame continues at its saved address. At the END of a fiber body that was called: the
     // calling fiber becomes active again and the body's return value becomes the result of its `call` (the top slot of
     // ITS stack); the finished fiber keeps no frame and no caller. At the end of the outermost fiber the run ends.
-    //@fn file=yarel/src/vm.rs path=Vm::return_impl ret=r props=C09,C05
+    //@fn file=yarel/src/vm.rs path=Vm::return_impl ret=r props=C09,C05,C16
     //@  requires old(self).wf(), old(self).fiber is Some, old(self).active().frames@.len() > 0, old(self).active().stack.view.len() > old(self).active().frames@.last().slot_base, old(self).active().stack.view.len() <= STACK_MAX
     //@  requires old(self).active().frames@.len() == 1 && old(self).active().caller is None ==> old(self).active().stack.view.len() >= 2
     //@  requires old(self).active().caller matches Some(c) ==> old(self).heap.dom().contains(c.id()) && c.id() != old(self).active_id() && old(self).heap[c.id()].stack.view.len() > 0 && old(self).heap[c.id()].frames@.len() > 0
     //@  ensures @a_call_is_replaced_by_its_result old(self).active().frames@.len() > 1 ==> r == Ok::<Option<Value>, Error>(None) && final(self).fiber == old(self).fiber && final(self).active().stack.view == old(self).active().stack.view.take(old(self).active().frames@.last().slot_base as int).push(old(self).active().stack.view.last()) && final(self).active().frames@ == old(self).active().frames@.drop_last() && final(self).ip == old(self).active().frames@[old(self).active().frames@.len() - 2].ip
     //@  ensures @the_bodys_return_value_becomes_the_result_of_call (old(self).active().frames@.len() == 1 && old(self).active().caller is Some) ==> r == Ok::<Option<Value>, Error>(None) && (final(self).fiber matches Some(x) && x.id() == old(self).active().caller->0.id()) && final(self).active().stack.view == old(self).heap[old(self).active().caller->0.id()].stack.view.update(old(self).heap[old(self).active().caller->0.id()].stack.view.len() - 1, old(self).active().stack.view.last())
     //@  ensures @a_finished_fiber_keeps_no_frame_and_no_caller (old(self).active().frames@.len() == 1 && old(self).active().caller is Some) ==> final(self).heap[old(self).active_id()].frames@.len() == 0 && final(self).heap[old(self).active_id()].caller is None && final(self).active().frames == old(self).heap[old(self).active().caller->0.id()].frames
+    //@  ensures @a_finished_fiber_keeps_none_of_its_values (old(self).active().frames@.len() == 1 && old(self).active().caller is Some) ==> final(self).heap[old(self).active_id()].stack.view.len() == 0
     //@  ensures @the_end_of_the_outermost_fiber_ends_the_run (old(self).active().frames@.len() == 1 && old(self).active().caller is None) ==> (r matches Ok(Some(_))) && final(self).fiber == old(self).fiber && final(self).active().frames@.len() == 0
     //@  ensures @other_fibers_untouched forall|i: int| old(self).heap.dom().contains(i) && i != old(self).active_id() && !(old(self).active().caller matches Some(c) && i == c.id()) ==> final(self).heap.dom().contains(i) && final(self).heap[i] == old(self).heap[i]
     //@end
